@@ -53,7 +53,7 @@ class Prop(BaseProp):
             "pool, is compared with an exact executable model (breakpoints exactly, one-sided limits and integral 1e-9); "
             "operands are byte-compared before/after, copies checked for shared memory, a+b vs b+a and two association "
             "orders compared. distinct = (kind, breakpoint interleaving word of the pool, operation sequence)")
-    budget = {"quick": 1400, "thorough": 40000}
+    budget = {"quick": 2800, "thorough": 320000}
     must_see = ["kind_pwc", "kind_pwl", "bp_only_in_op1", "bp_only_in_op2", "bp_shared", "tail:op1_tail_longer",
                 "tail:op2_tail_longer", "tail:end_together", "tail:op1_single_piece", "tail:op2_single_piece",
                 "identical_breakpoints", "history_len>=5", "int_valued_pwc", "int_valued_pwl", "copy_op", "mul_op", "self_add",
